@@ -1,6 +1,7 @@
 """C09 - ownership invariants survive any API history; bad arguments never crash (structural clauses)."""
 from facts import walk, render, role, is_call, AnalysisBroken
 from engines import is_this_like, ff, nth_arg, receiver, path, unwrap_defarg, is_write_context
+import fields
 from nullflow import NullSummaries, nonnull_at
 
 LEVEL = ('Rules over the object model and the services that accept entities (clang AST/CFG + call graph): (N) no exported method dereferences a shared_ptr parameter, directly or through a callee, '
@@ -323,6 +324,65 @@ def run(F, rep):
                       '%s reads only %s of the pair `%s`: whatever it decides (owning model, identity, ids) ignores the other variable' % (f.short, 'variable1()' if e in v1 else 'variable2()', e), 'both members read')
     if n_s < 8:
         raise AnalysisBroken('C09.S1: %d pair uses found (10 confirmed)' % n_s)
+
+
+    # ------------------------------------------------------------------ V: iterators stay valid
+    rep.rule('C09.V1', 'an iterator into a child container (the result of find*/std::find over a data member) is not used (erase, dereference, comparison with end()) after a call that can change that container: '
+                       'a clean-up or insertion between the lookup and the erase makes erase() remove a different element or run on end()')
+    from faillog import _can_reach
+    n_v = 0
+    ENT = ('model.cpp', 'component.cpp', 'componententity.cpp', 'variable.cpp', 'units.cpp', 'reset.cpp', 'importsource.cpp', 'entity.cpp', 'namedentity.cpp', 'importedentity.cpp', 'parentedentity.cpp', 'importer.cpp', 'annotator.cpp')
+    for f in F.funcs.values():
+        if f.file.split('/')[-1] not in ENT:
+            continue
+        for v in f.walk():
+            if v.get('k') != 'Var' or not v.get('c') or 'iterator' not in (v.get('t') or ''):
+                continue
+            init = v['c'][0]
+            conts = set()
+            for x in walk(init):
+                if x.get('k') == 'Member' and x.get('field') and 'std::vector' in (x.get('t') or '') + '':
+                    conts.add(x['n'])
+                if x.get('k') == 'Call' and x.get('ck') in F.funcs and x.get('fn', '').startswith('find'):
+                    conts |= {n_ for n_ in fields.this_reads(F, F.funcs[x['ck']]) if n_.startswith('m')}
+            if not conts:
+                continue
+            uses = [u for u in f.walk() if u.get('k') == 'Ref' and u.get('d') == v['d'] and f.enclosing_lambda(u) is None]
+            if not uses:
+                continue
+            cfg = f.cfg()
+            muts = []
+            for c in f.walk():
+                if c.get('k') != 'Call' or c.get('opc') or c is init or any(x is c for x in walk(init)):
+                    continue
+                w = set()
+                if c.get('mc') and c.get('c') and is_this_like(c['c'][0]):
+                    for ck in F.callee_keys(c):
+                        if ck in F.funcs:
+                            w |= fields.this_writes(F, F.funcs[ck])
+                if c.get('mc') and c.get('fn') in ('erase', 'push_back', 'emplace_back', 'insert', 'clear', 'resize') and c['c'][0].get('k') == 'Member' and c['c'][0].get('n') in conts:
+                    # the erase that consumes the iterator itself is the use, not an intervening mutation
+                    if any(r.get('k') == 'Ref' and r.get('d') == v['d'] for a in c['c'][1:] for r in walk(a)):
+                        continue
+                    w.add(c['c'][0]['n'])
+                if w & conts:
+                    muts.append((c, w & conts))
+            n_v += 1
+            bad = None
+            for m_, w in muts:
+                if not _can_reach(cfg, v, m_):
+                    continue
+                for u in uses:
+                    if u.get('l', 0) >= m_.get('l', 0) and _can_reach(cfg, m_, u) and not any(x is u for x in walk(m_)):
+                        bad = (m_, u, w)
+                        break
+                if bad:
+                    break
+            rep.check(bad is None, 'C09.V1', '%s|%s' % (f.short, v['n']), f.where(v),
+                      '%s: iterator `%s` (into %s) is used at line %s after `%s`, which can change %s' % (f.short, v['n'], sorted(conts), bad[1].get('l') if bad else '', render(bad[0])[:40] if bad else '', sorted(bad[2]) if bad else ''),
+                      'no change of %s between lookup and use' % sorted(conts))
+    if n_v < 15:
+        raise AnalysisBroken('C09.V1: only %d iterators into child containers found (25+ confirmed)' % n_v)
 
 
 def strip_cast(n):
